@@ -60,6 +60,8 @@ func init() {
 					}
 				}
 				items = append(items, Item{ID: "checkvalue:" + sv.Alg, Run: func(c *Ctx) { c14checkValue(c, sv) }})
+				// the service everybody gets from the registry is shared: Calc may not keep state in it
+				items = append(items, Item{ID: "shared:" + sv.Alg, Run: func(c *Ctx) { c14shared(c, sv) }})
 				// history: the result must depend on the bytes given now, not on what the same service saw before
 				for _, n := range []int{1, 2} {
 					n := n
@@ -650,5 +652,69 @@ func c14history(c *Ctx, sv svcSpec, n int) {
 				})
 			}
 		}
+	}
+}
+
+
+// c14shared: Calc of the registered service instance (the one codec.Get hands to every caller) on a small buffer:
+// no write to any object that existed after package initialisation. A stateful Calc (running register kept in
+// the service) computes wrong values as soon as two goroutines use the service at once; replayed as parallel Calc
+// calls on private buffers under the race detector, compared with the sequential results.
+func c14shared(c *Ctx, sv svcSpec) {
+	e := c.e()
+	get := c.w.fn("codec.Get")
+	fn, _ := c.calcFn(sv)
+	if get == nil || fn == nil {
+		c.Inconclusive("codec.Get / Calc not found")
+		return
+	}
+	s := c.w.newState()
+	e.pushCall(s, get, []Value{&StringV{B: ConstBytes(sv.Alg)}}, nil)
+	fin := e.Run(s)
+	if len(fin) != 1 || fin[0].panicd != "" || fin[0].cut != "" {
+		c.Inconclusive("codec.Get did not run to a single result")
+		return
+	}
+	s = fin[0]
+	s.frames = nil
+	tv, ok := s.ret.(TupleV)
+	if !ok || len(tv) != 2 {
+		c.Inconclusive("codec.Get result not understood")
+		return
+	}
+	iv, ok := tv[0].(*IfaceV)
+	if !ok || iv.T == nil {
+		c.res.Vacuous = append(c.res.Vacuous, sv.Alg+" is not registered at start-up")
+		return
+	}
+	data := make([]*Term, 5)
+	for i := range data {
+		data[i] = e.freshVar("b", 8)
+	}
+	bufID := s.newObj(&Obj{Kind: kBuffer, B: VecBytes(data), R: CI(0)})
+	s.acc = nil
+	steps := []map[string]any{step("op", "newbuf", "buf", "b", "hex", "0102030405060708090a0b0c0d0e0f"), step("op", "fillbuf", "buf", "b", "n", 200000, "fill", 7), step("op", "calc", "alg", sv.Alg, "buf", "b")}
+	e.pushCall(s, fn, []Value{iv.V, &Ptr{Obj: bufID}}, nil)
+	for _, fs := range e.Run(s) {
+		if c.PathProblem(fs, "Calc(shared service)", nil) {
+			continue
+		}
+		clean := true
+		for _, a := range fs.acc {
+			a := a
+			if a.Write {
+				clean = false
+				c.Prove(fs, "calc-keeps-no-state-in-the-shared-service@"+a.Site, False, func(val func(*Term) uint64) *Violation {
+					return &Violation{Detail: sv.Alg + " Calc writes to an object that exists since package initialisation (the registered service is shared by all callers) at " + a.Site,
+						Replay: &ReplayReq{Steps: []map[string]any{step("op", "parallel", "threads", 8, "n", 40, "ops", steps)}, Judge: Judge{Kind: "anomaly", Step: 0, Note: "race"}}}
+				})
+				break
+			}
+		}
+		if clean {
+			c.res.Obl++
+			c.res.Dis++
+		}
+		c.Witness(fs, "shared service", nil)
 	}
 }
